@@ -4,7 +4,7 @@
 From Coq Require Import String ZArith List Bool Lia ZifyBool.
 From BU Require Import Lib.Bytes Lib.BytesFacts Lib.PySem Gen.Tables Gen.Src Model.Varint Model.Script Model.Seq Model.Tx Model.Sighash
   Proofs.ScriptNumFacts Proofs.TieLib Proofs.Tie_encode_varint Proofs.Tie_prepend_compact_size Proofs.Tie_tagged_hash
-  Proofs.Tie_tx_parts Proofs.Tie_tx_whole Proofs.Tie_segwit_digest.
+  Proofs.TieDigestLib.
 Import ListNotations.
 Open Scope list_scope.
 Open Scope Z_scope.
